@@ -128,6 +128,13 @@ def do_case(rec, case):
             rec.countd("kernel_violation_kinds", v.kind)
 
 
+NEIGHBOURHOOD_SHAPES = ["A(i,k) = B(i,j) * C(k,j) + D(i,k)", "A(i,k) = B(i,j) * C(j,k) + D(i,k)", "A(i,k) = D(i,k) + B(i,j) * C(k,j)",
+                        "a(i) = B(i,j) * c(j) + d(i)", "A(i,j) = B(i,j) * c(j) + D(i,j)", "a(i) = b(i) * (c(i) + 1)", "a(i) = (c(i) + 1) * b(i)",
+                        "A(i,j) = B(i,j) * (c(i) + d(j))", "A(i,j) = B(i,k) * C(k,j)", "a(i) = B(i,j) * C(i,j)", "A(i,j) = B(i,j) + C(i,j)",
+                        "A(i,j) = B(i,j) * C(i,j) + D(i,j)", "a(i) = B(i,j) * c(j) - D(i,k) * e(k)", "A(i,j,k) = B(i,j,k) + C(i,j,k)",
+                        "A(i,k) = B(i,j) * C(k,j) - D(i,l) * E(l,k)", "a() = B(i,j) * C(i,j) + d(i)"]
+
+
 def sparse_formats(rng, orders):
     return gen.random_formats(rng, orders, sparse_bias=0.8)
 
@@ -148,6 +155,33 @@ def shard(rec, tier, index, n_shards):
         orders = gen.tensor_orders(target, tree)
         for _ in range(plan["draws"]):
             do_case(rec, engine.build_case(rng, target, tree, sparse_formats(rng, orders), origin="random", sizes_pool=sizes_pool))
+    # the neighbourhood of "everything compressed": for shapes mixing sums, contractions and broadcast factors, the
+    # all-compressed assignment and EVERY assignment with exactly one level of one tensor dense (the other indexes
+    # still qualify), each on inputs with empty rows/columns - where an exhausted operand leaves a loop without
+    # sparse leaves, which must not fall back to counting up to the dimension
+    k = 0
+    for text in NEIGHBOURHOOD_SHAPES:
+        target, tree = gen.parse(text)
+        orders = gen.tensor_orders(target, tree)
+        variants = [{n: "s" * o for n, o in orders.items()}]
+        for n, o in orders.items():
+            for l in range(o):
+                v = {m: "s" * oo for m, oo in orders.items()}
+                v[n] = "s" * l + "d" + "s" * (o - l - 1)
+                variants.append(v)
+        for v in variants:
+            k += 1
+            if k % n_shards != index:
+                continue
+            for d in range(3 if tier == "quick" else 8):
+                case = engine.build_case(rng, target, tree, dict(v), origin="neighbourhood", sizes_pool=[3, 4, 5])
+                dims = engine.input_dims(case)
+                for n in case.inputs:
+                    # some leading slices entirely empty, the rest about half full
+                    keep = {x for x in range(dims[n][0]) if rng.random() < 0.6} if dims[n] else set()
+                    case.inputs[n] = {c: val for c, val in gen.random_entries(rng, dims[n], density=0.5).items() if not c or c[0] in keep}
+                rec.count("neighbourhood_cases")
+                do_case(rec, case)
 
 
 def main(tier):
